@@ -822,8 +822,10 @@ theorem inlineClean_of_flat : (e : Expr) → e.beforeFlatB = true → e.flatClos
   | .bin _ l r ogl rgl _ _, h, hf => by
     simp only [Expr.beforeFlatB, Bool.and_eq_true, decide_eq_true_eq] at h
     exact ⟨h.1.1.1, h.1.1.2, inlineClean_of_flat l h.1.2 hf.1, inlineClean_of_flat r h.2 hf.2⟩
-  | .ite .., h, _ => by simp [Expr.beforeFlatB] at h
-  | .has .., h, _ => by simp [Expr.beforeFlatB] at h
+  | .ite c t e _ _ _ _ _ _ _ _ _ _ _ _ _, h, hf => by
+    simp only [Expr.beforeFlatB, Bool.and_eq_true] at h
+    exact ⟨inlineClean_of_flat c h.1.1 hf.1, inlineClean_of_flat t h.1.2 hf.2.1, inlineClean_of_flat e h.2 hf.2.2⟩
+  | .has e _ _ _ _ _ _ _, h, hf => inlineClean_of_flat e h hf
 theorem allInlineClean_of_flat : (es : List Expr) → allBeforeFlatB es = true → allFlatClosed es → allInlineClean es
   | [], _, _ => trivial
   | e :: rest, h, hf => by
